@@ -1,16 +1,14 @@
 CONSTANTS
   MaxU = "18446744073709551615"
   Clients = {1, 2, 3}
-  Progs <- Progs03_3
-  Inits = {"absent", "present", "expired"}
+  Progs <- ProgsClock
+  Inits = {"expired"}
   KeyLock = TRUE
   ExpiryRecheck = TRUE
   EntryApi = TRUE
   FlushLock = TRUE
-  CollectOwn = TRUE
+  CollectOwn = FALSE
 SPECIFICATION Spec
-INVARIANT Linearizable
-INVARIANT SerialEquiv
 INVARIANT AcctExact
 PROPERTY Termination
 VIEW View
